@@ -14,7 +14,7 @@ pub fn universe() -> Vec<ST> {
         x("5", "integer"), x("10", "integer"), x("9", "integer"), x("-3", "integer"), x("007", "integer"), x("0", "integer"),
         x("7", "byte"), x("300", "short"), x("2", "long"), x("0", "nonPositiveInteger"), x("3", "positiveInteger"),
         x("2.5", "decimal"), x("10.0", "decimal"), x("123456789012345678901.5", "decimal"), x("-0.5", "decimal"),
-        x("10", "double"), x("1e1", "double"), x("-0.0", "double"), x("0", "double"), x("NaN", "double"), x("INF", "double"), x("-INF", "double"), x("2.5", "float"),
+        x("10", "double"), x("1e1", "double"), x("-0.0", "double"), x("0", "double"), x("NaN", "double"), x("INF", "double"), x("-INF", "double"), x("2.5", "float"), x("NaN", "float"), x("INF", "float"), x("2e0", "double"), x("1", "integer"),
         x("abc", "integer"), x("5", "fo"), x("5", "string"), x("abc", "string"), x("B", "string"), x("", "string"),
         x("true", "boolean"), x("false", "boolean"),
         x("2020-01-01T00:00:00Z", "dateTime"), x("2021-06-01T00:00:00Z", "dateTime"),
